@@ -80,14 +80,18 @@ def metricsJHandlers : List (String × JHandler) := [
     pure (resJ (sharpeRatio metricsOrc iv d xs rf))),
   ("alphabeta", fun j => do
     let xs ← jRatList j "values"; let bs ← jRatList j "bench"; let d ← jRat j "duration"
+    -- outcome "nonfinite" when a component is nan/inf; the components are reported separately (beta stays finite when only an
+    -- APR overflows)
     match alphaBeta metricsOrc xs bs d with
-    | .ok (a, b) => pure (Json.mkObj [("outcome", .str "ok"), ("alpha", bigJ a), ("beta", bigJ b)])
+    | .ok (a, b) => pure (Json.mkObj [("outcome", .str (if a.isSome && b.isSome then "ok" else "nonfinite")),
+        ("alpha", valJ a), ("beta", valJ b)])
     | .error e => pure (Json.mkObj [("outcome", .str e.name)])),
   ("perf", fun j => do
-    let xs ← jRatList j "values"; let rf ← jRat j "rf"
+    -- no "rf": the call leaves `annualized_risk_free_rate` to its default (read from the source: Gen.metricsDefaultRiskFree)
+    let xs ← jRatList j "values"; let rf ← jRatOpt j "rf"
     let t0 ← jInt j "t0"; let t1 ← jInt j "t1"; let te ← jInt j "tEnd"
     let bench ← jRatListOpt j "bench"
-    match performanceMetrics metricsOrc t0 t1 te xs rf bench with
+    match performanceMetricsOpt metricsOrc t0 t1 te xs rf bench with
     | .error e => pure (Json.mkObj [("outcome", .str e.name)])
     | .ok p => pure (Json.mkObj [("outcome", .str "ok"), ("startVal", ratJ p.startVal), ("endVal", ratJ p.endVal),
         ("intervalInDay", ratJ p.intervalInDay), ("durationInDay", ratJ p.durationInDay),
